@@ -91,7 +91,8 @@ class LoopInfo:
         self.iter = iter_term       # term iterated over (for) / condition (while)
         self.parent = parent
         self.guards = guards
-        self.carried = {}           # name -> (init, step)
+        self.carried = {}           # canonical name -> (init, step)
+        self.names = {}             # canonical name -> source identifier
         self.targets = {}           # name -> term bound by the loop header
         self.has_break = False
         self.has_continue = False
@@ -154,6 +155,8 @@ class FuncAnalysis:
         self._globals_decl = set()
         self._nonlocal_decl = set()
         self._locals = _assigned_names(fi.node)
+        self._mutated = _mutated_names(fi.node)
+        self._obj_count = {}
         self._run()
 
     # -- helpers -------------------------------------------------------------
@@ -326,6 +329,11 @@ class FuncAnalysis:
 
     def _s_Assign(self, s):
         v = self.ev(s.value)
+        if len(s.targets) == 1 and isinstance(s.targets[0], ast.Name) and s.targets[0].id in self._mutated \
+                and isinstance(s.value, (ast.List, ast.Dict, ast.Set)) and v[0] in ('list', 'dict', 'set'):
+            # a mutable literal that is mutated later is an object, not a value
+            self._obj_count[v] = self._obj_count.get(v, 0) + 1
+            v = ('call', T.G('$obj'), (v, T.C(self._obj_count[v])), ())
         for tgt in s.targets:
             self._assign(tgt, v, s)
         return None
@@ -443,8 +451,20 @@ class FuncAnalysis:
 
     # loops
     def _new_loop(self, node, kind, it):
+        # loop ids are structural (hash of the iterated term) so that adding or
+        # removing an unrelated loop does not rename the others
         self._n_loop += 1
-        lid = f'L{self._n_loop}'
+        if kind == 'for':
+            import hashlib
+            base = 'L' + hashlib.md5(repr(it).encode()).hexdigest()[:5]
+        else:
+            self._n_while = getattr(self, '_n_while', 0) + 1
+            base = f'W{self._n_while}'
+        lid = base
+        k = 1
+        while lid in self.loops:
+            k += 1
+            lid = f'{base}#{k}'
         li = LoopInfo(lid, node, kind, it, self._loops[-1] if self._loops else None,
                       tuple((c, p) for c, p, k in self._guards))
         li.break_envs = []
@@ -475,6 +495,60 @@ class FuncAnalysis:
                 if any(T.contains(k[1], rt) for rt in root_terms):
                     del self.env[k]
 
+    def _canon_carried(self, li, pre, carried, ev_start):
+        """Give loop-carried variables structural names (hash of their initial
+        value and their step with all phi names erased) so that terms do not
+        depend on the identifiers chosen in the source."""
+        import hashlib
+
+        def erase(t):
+            return T.transform(t, lambda x: ('phi', x[1], '?') if x[0] == 'phi' else None)
+        ren = {}
+        names = {}
+        used = set()
+        for name in carried:
+            if name not in pre:
+                continue
+            step = self.env.get(name, UNDEF)
+            if step == ('phi', li.id, name):
+                continue
+            h = hashlib.md5(repr((erase(pre[name]), erase(step))).encode()).hexdigest()[:5]
+            canon = 'v' + h
+            k = 1
+            while canon in used:
+                k += 1
+                canon = f'v{h}_{k}'
+            used.add(canon)
+            ren[('phi', li.id, name)] = ('phi', li.id, canon)
+            names[name] = canon
+            T.DISPLAY_NAMES[canon] = name
+        if ren:
+            for e in self.events[ev_start:]:
+                e.d = {k: (T.subst(v, ren) if isinstance(v, tuple) else v) for k, v in e.d.items()}
+                e.guards = tuple((T.subst(c, ren), p) for c, p in e.guards)
+                e.withs = tuple(T.subst(w, ren) for w in e.withs)
+            for k in list(self.env):
+                v = self.env[k]
+                nk = T.subst(k, ren) if isinstance(k, tuple) else k
+                nv = T.subst(v, ren)
+                if nk != k:
+                    del self.env[k]
+                self.env[nk] = nv
+            for be in li.break_envs:
+                for k in list(be):
+                    be[k] = T.subst(be[k], ren)
+            for k in list(li.targets):
+                li.targets[k] = T.subst(li.targets[k], ren)
+            if li.iter is not None:
+                li.iter = T.subst(li.iter, ren)
+            for lid, other in self.loops.items():
+                if other is not li and other.iter is not None:
+                    other.iter = T.subst(other.iter, ren)
+                    other.carried = {k: (T.subst(a, ren), T.subst(b, ren)) for k, (a, b) in other.carried.items()}
+                    other.targets = {k: T.subst(v, ren) for k, v in other.targets.items()}
+            self._guards = [(T.subst(c, ren), p, k) for c, p, k in self._guards]
+        return names
+
     def _loop_body(self, li, s, bind):
         carried = sorted(_assigned_in(s.body) | (_assigned_in(s.orelse) if False else set()))
         pre = dict(self.env)
@@ -482,10 +556,12 @@ class FuncAnalysis:
         for name in carried:
             if name in self.env:
                 self.env[name] = ('phi', li.id, name)
+        ev_start = len(self.events)
         self._loops.append(li.id)
         bind()
         self._block(s.body)
         self._loops.pop()
+        canon = self._canon_carried(li, pre, carried, ev_start)
         post = self.env
         new_env = dict(pre)
         # drop store read-backs that changed
@@ -500,8 +576,10 @@ class FuncAnalysis:
                 new_env[name] = init
                 continue
             brk = tuple(sorted({be.get(name, UNDEF) for be in li.break_envs} - {step}, key=repr))
-            li.carried[name] = (init, step)
-            new_env[name] = ('after', li.id, name, init, step, brk)
+            cn = canon.get(name, name)
+            li.carried[cn] = (init, step)
+            li.names[cn] = name
+            new_env[name] = ('after', li.id, cn, init, step, brk)
         self.env = new_env
         if s.orelse:
             li.has_else = True
@@ -553,12 +631,14 @@ class FuncAnalysis:
         for name in carried:
             if name in self.env:
                 self.env[name] = ('phi', li.id, name)
+        ev_start = len(self.events)
         self._loops.append(li.id)
         bind()
         self._block(s.body)
         if li._pushed:
             self._guards.pop()
         self._loops.pop()
+        canon = self._canon_carried(li, pre, carried, ev_start)
         post = self.env
         new_env = dict(pre)
         for k in list(new_env):
@@ -571,8 +651,10 @@ class FuncAnalysis:
                 new_env[name] = init
                 continue
             brk = tuple(sorted({be.get(name, UNDEF) for be in li.break_envs} - {step}, key=repr))
-            li.carried[name] = (init, step)
-            new_env[name] = ('after', li.id, name, init, step, brk)
+            cn = canon.get(name, name)
+            li.carried[cn] = (init, step)
+            li.names[cn] = name
+            new_env[name] = ('after', li.id, cn, init, step, brk)
         self.env = new_env
         if s.orelse:
             li.has_else = True
@@ -983,6 +1065,26 @@ def _assigned_in(stmts):
     # nested function names
     for n in stmts:
         pass
+    return out
+
+
+_MUTATORS = {'append', 'extend', 'insert', 'update', 'add', 'remove', 'pop', 'clear', 'sort',
+             'setdefault', 'popitem', 'discard'}
+
+
+def _mutated_names(fnode):
+    out = set()
+    for n in _walk_no_defs(fnode.body):
+        if isinstance(n, ast.Call) and isinstance(n.func, ast.Attribute) and n.func.attr in _MUTATORS \
+                and isinstance(n.func.value, ast.Name):
+            out.add(n.func.value.id)
+        elif isinstance(n, (ast.Assign, ast.AugAssign)):
+            tgts = n.targets if isinstance(n, ast.Assign) else [n.target]
+            for t in tgts:
+                if isinstance(t, ast.Subscript) and isinstance(t.value, ast.Name):
+                    out.add(t.value.id)
+                if isinstance(n, ast.AugAssign) and isinstance(t, ast.Name):
+                    out.add(t.id)
     return out
 
 
